@@ -305,7 +305,18 @@ class SourceTree:
 
     def _merge_class(self, info, node, f):
         if not info.bases:
-            info.bases = [ast.unparse(b).split('.')[-1] for b in node.bases]
+            try:
+                imps = getattr(self.module(f), 'imports', {})
+            except Exception:
+                imps = {}
+            bases = []
+            for b in node.bases:
+                nm = ast.unparse(b).split('.')[-1]
+                org = imps.get(nm)
+                if isinstance(org, str) and org.split('.')[-1] != nm:
+                    nm = org.split('.')[-1]          # class imported under an alias (e.g. BeamCXPEC as CoreBeamCXPEC)
+                bases.append(nm)
+            info.bases = bases
         info.cdef_class = info.cdef_class or getattr(node, 'cdef_class', False)
         if not f.endswith('.pxd'):
             info.node = node
